@@ -184,7 +184,9 @@ Print Assumptions C01_rm_is_regex_semantics.
     ([engine_is_ends]: every regexp atom lies in the exact fragment and the engine's verdict on every name/content is
     "[Regex.ends (emb cs r)] is non-empty from some start position").  _partial: the engine itself is not modelled;
     regexps using operators outside the fragment (classes, ., ?, *, anchors) are only covered by theorem 12 (sound
-    over-approximation [rm]); symbol atoms as in theorem 12. *)
+    over-approximation [rm]).  Symbol{Regexp} atoms: the engine's verdict on the text of every symbol section is the
+    same executable semantics; that a regexp distilled to ONE exact literal (the symbolSubstrMatchTree case) means
+    "the literal occurs in the section text" is derived ([distill_single], [single_lit_rm]), not assumed. *)
 Theorem C01_search_exact_regex_semantics_partial :
   forall (re_match : N -> list N -> bool) (tolower : N -> N) (orbit orbit2 : N -> list N) (c : corpus)
          (freq : bool -> bool -> tri -> N),
@@ -197,6 +199,20 @@ Theorem C01_search_exact_regex_semantics_partial :
   search re_match tolower orbit c freq q = spec_search re_match tolower c q.
 Proof. exact search_exact_regex_semantics. Qed.
 Print Assumptions C01_search_exact_regex_semantics_partial.
+
+(** a regexp whose distillation is one exact substring leaf matches somewhere in a text (ANY text, e.g. a section
+    text) iff that literal occurs in it *)
+Theorem C01_single_literal_regexp :
+  forall (tolower : N -> N) (orbit : N -> list N) (c : corpus) (freq : bool -> bool -> tri -> N) (cs fn : bool)
+         (r : rx) (s : sleaf) (sl : bool),
+  distill orbit c freq cs fn r = (MTsubstr s, true, sl) ->
+  forall t, (exists i j, rm tolower cs t r i j) <-> contains tolower (sl_cs s) (sl_pat s) t = true.
+Proof.
+  intros tolower orbit c freq cs fn r s sl Hd t.
+  destruct (distill_single orbit c freq cs fn r s sl Hd) as [p [f [Hs [Hp [Hc Hl]]]]].
+  rewrite Hp, Hc. apply single_lit_rm; assumption.
+Qed.
+Print Assumptions C01_single_literal_regexp.
 
 (** 12b. Symbol queries, the mechanism of symbolSubstrMatchTree.prepare: the two-pointer walk over the sorted sections
     and the ascending candidate offsets keeps exactly the candidates that start and end inside one section ... *)
